@@ -360,4 +360,179 @@ theorem addSentinel_ok {P : Params} (hP : P.ans = serialAns) (hc : CodecOk P.cod
     rw [hsent]; exact he
   · simp only [fr1.front]
 
+/-! ### `end_file` -/
+
+theorem fproto_prefix {o : Bool} {a b : List Blk} (h : fproto o (a ++ b) = true) : fproto o a = true := by
+  rw [fproto_append, Bool.and_eq_true] at h; exact h.1
+
+/-- the reset at the end of `end_file` -/
+theorem PInv.endReset {P : Params} {s : Proc} {g : Ghost} {W : WSt} (h : PInv P s g 0 W) :
+    PInv P { s with beginCalled := false, inode := none, blkFlags := 0 } g 0 W :=
+  h.setFront (fun hb => { hb with }) h.acct
+
+theorem endFile_ok {P : Params} (hP : P.ans = serialAns) (hc : CodecOk P.codec) (hB : P.B < 2 ^ 24)
+    {s : Proc} {g : Ghost} {W : WSt} (h : PInv P s g 0 W) (hfe : FrontInv P.B s.fe g.front s.w.inodes.length)
+    (hbc : s.beginCalled = true) (hfin : g.fin = false) (hcne : ∀ c, s.blkCurrent = some c → c.data ≠ []) :
+    ∃ s' g' W', endFile P s = .ok s' ∧ PInv P s' g' 0 W' ∧ FrontInv P.B s'.fe g'.front s'.w.inodes.length ∧
+      s'.fe = feEnd s.fe ∧ g'.front = g.front ++ feEndItems s.fe ∧ g'.fe = g.fe ∧ g'.fin = false ∧
+      s'.w.inodes.length = s.w.inodes.length ∧ s'.maxBacklog = s.maxBacklog := by
+  have hend := hfe.endFile (by exact hbc) (by exact hcne)
+  have hitems : ∀ x ∈ feEndItems s.fe, ItemOK P.B s.w.inodes.length x :=
+    fun x hx => hend.items x (List.mem_append_right _ hx)
+  unfold endFile
+  rw [if_neg (by simp [hbc])]
+  cases hcur : s.blkCurrent with
+  | none =>
+    have hfec : s.fe.blkCurrent = none := hcur
+    have hitems_eq : feEndItems s.fe = if !hasFlag s.blkFlags blkFirstBlock then [feSentinel s.fe] else [] := by
+      unfold feEndItems; rw [hfec]; rfl
+    by_cases hfirst : hasFlag s.blkFlags blkFirstBlock = true
+    · -- nothing was ever appended: nothing is submitted
+      simp only [hfirst, Bool.not_true, Bool.false_eq_true, if_false]
+      have hnil : feEndItems s.fe = [] := by rw [hitems_eq]; simp [hfirst]
+      refine ⟨_, g, W, rfl, h.endReset, ?_, ?_, by rw [hnil]; simp, rfl, hfin, rfl, rfl⟩
+      · rw [hnil, List.append_nil] at hend
+        have : ({ s with beginCalled := false, inode := none, blkFlags := 0 } : Proc).fe = feEnd s.fe := by
+          simp only [Proc.fe, feEnd, hcur]
+        rw [this]; exact hend
+      · simp only [Proc.fe, feEnd, hcur]
+    · have hfirst' : hasFlag s.blkFlags blkFirstBlock = false := by simpa using hfirst
+      simp only [hfirst', Bool.not_false, if_true]
+      have hone : feEndItems s.fe = [feSentinel s.fe] := by rw [hitems_eq]; simp [hfirst']
+      obtain ⟨s1, g1, W1, hs, h1, hfe1, hfr1, hgfe1, hfin1, hil1, hmb1⟩ := addSentinel_ok hP hc hB h hfin
+        (hitems _ (by rw [hone]; exact List.mem_cons_self)) (by have := hend.proto; rw [hone] at this; exact this)
+      rw [hs]
+      simp only
+      have hcur1 : s1.blkCurrent = none := by rw [blkCurrent_of_fe hfe1]; exact hcur
+      refine ⟨_, g1, W1, rfl, h1.endReset, ?_, ?_, by rw [hfr1, hone], hgfe1, hfin1, hil1, hmb1⟩
+      · have : ({ s1 with beginCalled := false, inode := none, blkFlags := 0 } : Proc).fe = feEnd s.fe := by
+          have e := hfe1
+          simp only [Proc.fe, Front.mk.injEq] at e
+          obtain ⟨_, _, _, e4, _⟩ := e
+          simp only [Proc.fe, feEnd, hcur1, e4]
+        rw [this, hfr1, ← hone]
+        show FrontInv P.B (feEnd s.fe) (g.front ++ feEndItems s.fe) s1.w.inodes.length
+        rw [hil1]; exact hend
+      · have e := hfe1
+        simp only [Proc.fe, Front.mk.injEq] at e
+        obtain ⟨_, _, _, e4, _⟩ := e
+        simp only [Proc.fe, feEnd, hcur1, e4]
+  | some c =>
+    have hfec : s.fe.blkCurrent = some c := hcur
+    simp only
+    by_cases hdf : hasFlag s.blkFlags blkDontFragment = true
+    · -- DONT_FRAGMENT: the open block is the last block
+      simp only [hdf, if_true]
+      have hone : feEndItems s.fe = [{ c with flags := c.flags ||| blkLastBlock }] := by
+        unfold feEndItems; rw [hfec]; simp only; rw [if_pos (by exact hdf)]
+      have hacct : Acct { s with blkCurrent := none } g (boolNat ({ s with blkCurrent := none } : Proc).blkCurrent.isSome + 0 + 1) := by
+        have := h.acct
+        unfold Acct at *
+        simp only [hcur, Option.isSome_some, Option.isSome_none, boolNat] at this ⊢
+        simpa using this
+      obtain ⟨s2, he, hfe2, hil2, hmb2, hinv2⟩ := PInv.submit hP (s := { s with blkCurrent := none }) (held := 0)
+        { c with flags := c.flags ||| blkLastBlock } { h.back with } hacct
+        (hitems _ (by rw [hone]; exact List.mem_cons_self)) (by have := hend.proto; rw [hone] at this; exact this) hfin
+      rw [he]
+      simp only
+      have hfe2' : s2.fe = { s.fe with blkCurrent := none } := hfe2
+      refine ⟨_, _, W, rfl, hinv2.endReset, ?_, ?_, by rw [hone], rfl, hfin, hil2, hmb2⟩
+      · have : ({ s2 with beginCalled := false, inode := none, blkFlags := 0 } : Proc).fe = feEnd s.fe := by
+          have e := hfe2'
+          simp only [Proc.fe, Front.mk.injEq] at e
+          obtain ⟨_, _, _, e4, e5⟩ := e
+          simp only [Proc.fe, feEnd, e4, e5]
+        rw [this]
+        show FrontInv P.B (feEnd s.fe) (g.front ++ [{ c with flags := c.flags ||| blkLastBlock }]) s2.w.inodes.length
+        rw [← hone, hil2]; exact hend
+      · have e := hfe2'
+        simp only [Proc.fe, Front.mk.injEq] at e
+        obtain ⟨_, _, _, e4, e5⟩ := e
+        simp only [Proc.fe, feEnd, e4, e5]
+    · have hdf' : hasFlag s.blkFlags blkDontFragment = false := by simpa using hdf
+      simp only [hdf', Bool.false_eq_true, if_false]
+      by_cases hcf : hasFlag c.flags blkFirstBlock = true
+      · -- the only block of the file: it is the fragment
+        simp only [hcf, Bool.not_true, Bool.false_eq_true, if_false]
+        have hone : feEndItems s.fe = [{ c with flags := c.flags ||| blkIsFragment }] := by
+          unfold feEndItems; rw [hfec]; simp only; rw [if_neg (by rw [fe_blkFlags, hdf']; simp)]; simp [hcf]
+        have hacct : Acct { s with blkCurrent := none } g (boolNat ({ s with blkCurrent := none } : Proc).blkCurrent.isSome + 0 + 1) := by
+          have := h.acct
+          unfold Acct at *
+          simp only [hcur, Option.isSome_some, Option.isSome_none, boolNat] at this ⊢
+          simpa using this
+        obtain ⟨s2, he, hfe2, hil2, hmb2, hinv2⟩ := PInv.submit hP (s := { s with blkCurrent := none }) (held := 0)
+          { c with flags := c.flags ||| blkIsFragment } { h.back with } hacct
+          (hitems _ (by rw [hone]; exact List.mem_cons_self)) (by have := hend.proto; rw [hone] at this; exact this) hfin
+        rw [he]
+        simp only
+        have hfe2' : s2.fe = { s.fe with blkCurrent := none } := hfe2
+        refine ⟨_, _, W, rfl, hinv2.endReset, ?_, ?_, by rw [hone], rfl, hfin, hil2, hmb2⟩
+        · have : ({ s2 with beginCalled := false, inode := none, blkFlags := 0 } : Proc).fe = feEnd s.fe := by
+            have e := hfe2'
+            simp only [Proc.fe, Front.mk.injEq] at e
+            obtain ⟨_, _, _, e4, e5⟩ := e
+            simp only [Proc.fe, feEnd, e4, e5]
+          rw [this]
+          show FrontInv P.B (feEnd s.fe) (g.front ++ [{ c with flags := c.flags ||| blkIsFragment }]) s2.w.inodes.length
+          rw [← hone, hil2]; exact hend
+        · have e := hfe2'
+          simp only [Proc.fe, Front.mk.injEq] at e
+          obtain ⟨_, _, _, e4, e5⟩ := e
+          simp only [Proc.fe, feEnd, e4, e5]
+      · -- a sentinel carries `LAST`, then the tail end goes out as a fragment
+        have hcf' : hasFlag c.flags blkFirstBlock = false := by simpa using hcf
+        simp only [hcf', Bool.not_false, if_true]
+        have htwo : feEndItems s.fe = [feSentinel s.fe, { c with flags := c.flags ||| blkIsFragment }] := by
+          unfold feEndItems; rw [hfec]; simp only; rw [if_neg (by rw [fe_blkFlags, hdf']; simp)]; simp [hcf']
+        have hp2 := hend.proto
+        rw [htwo] at hp2
+        have hp1 : fproto false (g.front ++ [feSentinel s.fe]) = true := by
+          have : g.front ++ [feSentinel s.fe, { c with flags := c.flags ||| blkIsFragment }] =
+              (g.front ++ [feSentinel s.fe]) ++ [{ c with flags := c.flags ||| blkIsFragment }] := by simp
+          rw [this] at hp2
+          exact fproto_prefix hp2
+        obtain ⟨s1, g1, W1, hs, h1, hfe1, hfr1, hgfe1, hfin1, hil1, hmb1⟩ := addSentinel_ok hP hc hB h hfin
+          (hitems _ (by rw [htwo]; exact List.mem_cons_self)) hp1
+        rw [hs]
+        simp only
+        have hcur1 : s1.blkCurrent = some c := by rw [blkCurrent_of_fe hfe1]; exact hcur
+        have hacct : Acct { s1 with blkCurrent := none } g1 (boolNat ({ s1 with blkCurrent := none } : Proc).blkCurrent.isSome + 0 + 1) := by
+          have := h1.acct
+          unfold Acct at *
+          simp only [hcur1, Option.isSome_some, Option.isSome_none, boolNat] at this ⊢
+          simpa using this
+        obtain ⟨s2, he, hfe2, hil2, hmb2, hinv2⟩ := PInv.submit hP (s := { s1 with blkCurrent := none }) (held := 0)
+          { c with flags := c.flags ||| blkIsFragment } { h1.back with } hacct
+          (by
+            show ItemOK P.B s1.w.inodes.length _
+            rw [hil1]
+            exact hitems _ (by rw [htwo]; simp))
+          (by rw [hfr1]; simpa using hp2) hfin1
+        rw [he]
+        simp only
+        have hfe2' : s2.fe = { s.fe with blkCurrent := none } := by
+          rw [hfe2]
+          show ({ s1 with blkCurrent := none } : Proc).fe = _
+          have e := hfe1
+          simp only [Proc.fe, Front.mk.injEq] at e ⊢
+          obtain ⟨e1, e2, e3, e4, _⟩ := e
+          exact ⟨e1, e2, e3, e4, trivial⟩
+        refine ⟨_, _, W1, rfl, hinv2.endReset, ?_, ?_, by rw [hfr1, htwo]; simp, hgfe1, hfin1, hil2.trans hil1, hmb2.trans hmb1⟩
+        · have : ({ s2 with beginCalled := false, inode := none, blkFlags := 0 } : Proc).fe = feEnd s.fe := by
+            have e := hfe2'
+            simp only [Proc.fe, Front.mk.injEq] at e
+            obtain ⟨_, _, _, e4, e5⟩ := e
+            simp only [Proc.fe, feEnd, e4, e5]
+          rw [this]
+          show FrontInv P.B (feEnd s.fe) (g1.front ++ [{ c with flags := c.flags ||| blkIsFragment }]) s2.w.inodes.length
+          rw [hfr1, hil2, hil1]
+          have : g.front ++ [feSentinel s.fe] ++ [{ c with flags := c.flags ||| blkIsFragment }] = g.front ++ feEndItems s.fe := by
+            rw [htwo]; simp
+          rw [this]; exact hend
+        · have e := hfe2'
+          simp only [Proc.fe, Front.mk.injEq] at e
+          obtain ⟨_, _, _, e4, e5⟩ := e
+          simp only [Proc.fe, feEnd, e4, e5]
+
 end Sqfs.BlockProc
